@@ -20,9 +20,14 @@ def main(run: Run) -> int:
     jobs.append({"fn": "fc_empty", "globals": {}, "timeout": 100, "bound": "None and ''"})
     fc_harness.MAXLEAVES = 4 if thorough else 3
     n = len(fc_harness.cases())
-    chunk = 3 if thorough else 5
-    for lo in range(0, n, chunk):
-        jobs.append({"fn": "fc_glue", "globals": {"MAXLEAVES": fc_harness.MAXLEAVES, "YMAX": 1 if thorough else 0, "LO": lo, "HI": min(n, lo + chunk)}, "timeout": 600, "bound": "expressions of this partition x all truth assignments (symbolic) x with/without error messages x yields<=1 (thorough) / 0 (quick)"})
+    budget = 48 if thorough else 72  # paths per condition ~ sum over its cases of 2^keys x (2 without yields + 1 with)
+    cs = fc_harness.cases()
+    lo, acc = 0, 0
+    for i, (_t, ks) in enumerate(cs):
+        acc += (2 ** len(ks)) * 3
+        if acc >= budget or i == n - 1:
+            jobs.append({"fn": "fc_glue", "globals": {"MAXLEAVES": fc_harness.MAXLEAVES, "YMAX": 1, "YMAX_EVERY": 1 if thorough else 2, "LO": lo, "HI": i + 1}, "timeout": 600 + acc, "bound": "expressions of this partition x all truth assignments (symbolic) x with/without error messages x (no yields | the first three keys complete in reverse request order" + ("" if thorough else ", every 2nd expression") + ")"})
+            lo, acc = i + 1, 0
     jobs.sort(key=lambda j: -j["timeout"])
     for r, j in zip(xh.run_jobs(run, "vf.harness.fc_harness", jobs), jobs):
         xh.default_verdict(run, r, feats, bound=j["bound"])
